@@ -26,6 +26,41 @@ def real_worker(case):
         return {'harness_error': traceback.format_exc()[-1500:]}
 
 
+def real_worker_mutating(case):
+    try:
+        return realrun.run_case(case, mutate=True)
+    except Exception:
+        return {'harness_error': traceback.format_exc()[-1500:]}
+
+
+def alias_diff(case, plain, mutated):
+    """C11: the same history with and without in-place mutation of every value that crossed the API"""
+    ds = []
+    for i, (st, a, b) in enumerate(zip(case['steps'], plain['steps'], mutated['steps'])):
+        if st[0] != 'build':
+            continue
+        def strip(r):
+            if 'exc' in r:
+                return {'exc': {k: v for k, v in r['exc'].items() if k not in ('msg',)}}
+            return r
+        if strip(a['res']) != strip(b['res']):
+            ds.append({'cat': 'alias_res', 'step': i, 'detail': {'plain': a['res'], 'mutating': b['res']}})
+        if a['inv'] != b['inv']:
+            ds.append({'cat': 'alias_inv', 'step': i, 'detail': {'plain': a['inv'][:5], 'mutating': b['inv'][:5]}})
+        ta = [n[:3] for n in a['tree']]; tb = [n[:3] for n in b['tree']]
+        if ta != tb:
+            ds.append({'cat': 'alias_tree', 'step': i, 'detail': [x for x in tb if x not in ta][:4]})
+        ca, cb = a.get('cache_json'), b.get('cache_json')
+        if (ca is None) != (cb is None):
+            ds.append({'cat': 'alias_cache', 'step': i, 'detail': 'cache written in one run only'})
+        elif ca is not None and 'unreadable' not in ca and 'unreadable' not in cb:
+            ra = json.dumps(sort_dicts(canon_real_cache(ca, a['root'], set())), sort_keys=True)
+            rb = json.dumps(sort_dicts(canon_real_cache(cb, b['root'], set())), sort_keys=True)
+            if ra != rb:
+                ds.append({'cat': 'alias_cache', 'step': i, 'detail': first_diff(json.loads(ra), json.loads(rb))})
+    return ds
+
+
 def norm_root_value(w):
     """the root function's value is returned unsanitized: compare modulo tuple/list"""
     if isinstance(w, dict):
